@@ -56,6 +56,9 @@ type wrapW struct{ http.ResponseWriter }
 
 func (w *wrapW) Flush() { w.ResponseWriter.(http.Flusher).Flush() }
 
+// Unwrap follows the http.ResponseController convention: the wrapper exposes what it wraps
+func (w *wrapW) Unwrap() http.ResponseWriter { return w.ResponseWriter }
+
 var rpCur *rpRecorder
 
 func dvalSx(v any) Sx {
@@ -322,7 +325,7 @@ func (e *rpEnv) stmts(ss []Sx) {
 
 func rpExec(c Sx) (out Sx) {
 	xs := c.Lst()
-	if len(xs) != 5 {
+	if len(xs) != 5 && len(xs) != 6 {
 		panic("rp: bad case")
 	}
 	twin := false
@@ -425,6 +428,27 @@ func rpExec(c Sx) (out Sx) {
 				rpLastReuse++
 			}
 			seen[ptr] = true
+		}
+	}
+	if len(xs) == 6 && !twin {
+		// late phase: further registration statements (global Use) AFTER requests have been served, then more requests
+		late := xs[5].Lst()
+		if xs[5].Head() != "late" || len(late) != 3 {
+			panic("rp: bad late phase")
+		}
+		func() {
+			defer func() {
+				if e := recover(); e != nil {
+					if s, ok := e.(string); ok && strings.HasPrefix(s, "rp:") {
+						panic(e)
+					}
+				}
+			}()
+			env.stmts(late[1].Lst())
+		}()
+		for _, rq := range late[2].Lst() {
+			o, _ := serve(env, rq)
+			reqs = append(reqs, o)
 		}
 	}
 	if !twin {
